@@ -18,7 +18,7 @@ from scales.sink import ClientMessageSink, ClientMessageSinkStack, SinkProviderB
 ID = 'C07'
 LEVEL = 'exploration'
 RULE = ('Hypothesis-generated configurations (min_watermark 0-2, max_watermark 1-4, max_queue_len 0-4 or unbounded, '
-        'connection open delay 0-20 ms, up to 4 connections whose open is refused) and histories (<= 60 ops) of submit(timeout 20-200 ms or none) / complete(any lent '
+        'connection open delay 0-120 ms, up to 4 connections whose open is refused) and histories (<= 60 ops) of submit(timeout 20-200 ms or none) / complete(any lent '
         'request, reply or error) / complete two lent requests in the same instant / advance(1-150 ms) / one optional kill(connection, '
         'lent or idle) at a drawn step, against ClientTimeoutSink -> WatermarkPoolSink built from their providers over harness connections. '
         'Observed after every step: connections in existence <= max, no connection lent twice, FIFO start order of queued '
@@ -44,7 +44,7 @@ def strategy(tier):
   cfg = st.fixed_dictionaries({
       'min': st.integers(0, 2), 'max': st.sampled_from([1, 1, 2, 2, 3, 4]),
       'queue': st.one_of(st.none(), st.integers(0, 4)),
-      'open_delay_ms': st.sampled_from([[0], [0], [5], [0, 20], [1, 0, 10]]),
+      'open_delay_ms': st.sampled_from([[0], [0], [5], [0, 20], [1, 0, 10], [0, 60], [0, 30, 120]]),
       # connections (by creation index, never the first) whose open is refused after its delay
       'open_fails': st.one_of(st.just([]), st.just([]), st.lists(st.integers(1, 12), max_size=4, unique=True)),
   }).map(lambda c: dict(c, min=min(c['min'], c['max'])))
@@ -128,6 +128,12 @@ class Conn(ClientMessageSink):
     r.conn = self
     r.reached_at = loop.now()
     self.run.on_reach(r)
+    if r.completions:
+      # its deadline passed while the pool was still opening this connection for it: like the real transports,
+      # the connection answers an expired request at once with TimeoutError (which hands the connection back)
+      r.answered = True
+      self.run.flags.add('expired_while_connection_opened')
+      sink_stack.AsyncProcessResponseMessage(MethodReturnMessage(error=TimeoutError()))
 
   def AsyncProcessResponse(self, sink_stack, context, stream, msg):
     pass
@@ -408,7 +414,7 @@ class Run(object):
     n0 = len(self.reqs)
     for _ in range(self.cfg['max']):
       self.submit(None)
-    advance(0.05)
+    advance(0.2)         # longer than the slowest connection open
     self.raise_pending()
     stuck = [r.id for r in self.reqs[n0:] if r.conn is None]
     if stuck:
